@@ -16,7 +16,8 @@ fn mk() -> Acc { Acc { col: Collector::new(), evals: 0, buckets: Default::defaul
 pub fn run(ctx: &Ctx) -> i32 {
     let mut ev = Evidence::new("C14", &ctx.tier, "exploration");
     // ---------- field level
-    let letters: Vec<Option<String>> = std::iter::once(None).chain(('A'..='Z').map(|c| Some(c.to_string()))).collect();
+    // None = no letter given to the API (letter-less parsing); Some("") = a tag written without letter (what the message parser passes)
+    let letters: Vec<Option<String>> = [None, Some(String::new())].into_iter().chain(('A'..='Z').map(|c| Some(c.to_string()))).collect();
     let mut jobs: Vec<(usize, usize, String)> = vec![]; // (family idx, letter idx, content)
     for (fi, (_ty, num, _members)) in FAMILIES.iter().enumerate() {
         let mut contents: Vec<String> = vec![];
@@ -41,7 +42,7 @@ pub fn run(ctx: &Ctx) -> i32 {
         let (ty, num, members) = FAMILIES[*fi];
         let letter = &letters[*li];
         let written = format!("{num}{}", letter.clone().unwrap_or_default());
-        let in_family = members.contains(&written.as_str());
+        let in_family = letter.is_some() && members.contains(&written.as_str());
         a.evals += 1;
         with_field!(ty, T => {
             let case = || json!({"family": ty, "letter": letter, "content": c});
@@ -54,9 +55,9 @@ pub fn run(ctx: &Ctx) -> i32 {
                         if got != written { a.col.add(format!("C14/{ty}/wrong-variant:{written}->{got}"), i as u64, || format!("parse_with_variant(.., {:?}) returned option {got}", letter), case); }
                         else if own_parser_accepts(&written, c) == Some(false) { a.col.add(format!("C14/{ty}/accepted-what-option-rejects:{written}"), i as u64, || format!("{written}'s own parser rejects the content"), case); }
                     } else if letter.is_none() {
-                        // "parsed without an option letter": any member whose own parser accepts the content is fine
-                        // (judged below on T::parse); the two letter-less entry points must simply agree
-                        if let Ok(Ok(v0)) = guarded(|| <T as SwiftField>::parse(c)) { if format!("{:?}", v0) != format!("{:?}", v) { a.col.add(format!("C14/{ty}/letterless-entry-points-differ:{got}"), i as u64, || format!("parse_with_variant(.., None) gave {:?}, parse gave {:?}", v, v0), case); } }
+                        // "parsed without an option letter": any member whose own parser accepts the content
+                        if !members.contains(&got.as_str()) { a.col.add(format!("C14/{ty}/heuristic-unsound:{got}:not-a-member"), i as u64, || format!("parse_with_variant(.., None) returned {got}"), case); }
+                        else if own_parser_accepts(&got, c) == Some(false) { a.col.add(format!("C14/{ty}/heuristic-unsound:{got}"), i as u64, || format!("parse_with_variant(.., None) returned option {got} whose own parser rejects the content"), case); }
                     } else {
                         let class = match letter { None => "none".to_string(), Some(l) => if m1::kind(&format!("{num}{l}")).is_some() { "letter-of-another-family".to_string() } else { "unused-letter".to_string() } };
                         a.col.add(format!("C14/{ty}/foreign-letter-accepted:{class}"), i as u64, || format!("letter {:?} is not an option of {ty}; got option {got}", letter), case);
